@@ -265,3 +265,15 @@ def lossless_casts(cx, fns, audited, consequence):
             else:
                 cx.fail(inst, fn, fn.loc(pos.bb, pos.idx), '`%s as %s` can drop high bits: the value is not bounded by the target type on every path (%s)'
                         % (show(fn.operand_expr(o))[:80], dty, consequence))
+
+
+def field_or_accessor(prog, e, field, param=1):
+    """e reads self.<field>: directly, or through a local accessor whose whole body returns that field"""
+    if any(is_param_field(n, field, param) for n in e.walk()):
+        return True
+    for c in e.walk():
+        if c.kind == 'call' and c.info.get('key') in prog.fns and len(c.args) == 1 and c.args[0].strip().kind == 'param' and c.args[0].strip().info['i'] == param:
+            g = prog.fns[c.info['key']]
+            if g.argc == 1 and g.is_acyclic() and len(list(g.calls())) == 0 and any(is_param_field(n, field, 1) for n in g.local_expr(0, []).walk()):
+                return True
+    return False
